@@ -60,6 +60,8 @@ func ruleND1(p *Program, c *Check, funcs []*ssa.Function) {
 						c.Fail("ND-1", fk, "call:"+name, p.ipos(in), why)
 					case extUnclassified:
 						c.Fail("ND-1", fk, "call:"+name, p.ipos(in), "unclassified external callee with reference-typed parameters: cannot be shown deterministic")
+					case extLog:
+						c.Pass("ND-1", fk, "call:"+name, p.ipos(in), "diagnostic output: not part of any response")
 					case extIO:
 						if pkgNameOf(f) != "main" {
 							c.Fail("ND-1", fk, "call:"+name, p.ipos(in), "I/O call in library code on the request path")
